@@ -36,6 +36,8 @@ func main() {
 	switch flag.Arg(0) {
 	case "c18":
 		c18(*seed, *n)
+	case "c18forced":
+		c18forcedAll(*seed, *n)
 	case "c19":
 		c19(*seed, *n)
 	case "c19race":
